@@ -44,6 +44,9 @@ def load(repo):
     from pysyncobj.node import Node
     from pysyncobj.transport import Transport
     assert os.path.abspath(so.__file__).startswith(repo + os.sep), (so.__file__, repo)
+    # the library logs a traceback per raising command / unsupported version: keep the check's output clean
+    # (LogCapture below still sees ERROR records of pysyncobj.syncobj while it is installed)
+    logging.getLogger("pysyncobj").setLevel(logging.CRITICAL)
 
     class DummyTransport(Transport):
         """No sockets: always ready, sends nothing."""
@@ -262,9 +265,10 @@ class Built(object):
 
 
 class LogCapture(logging.Handler):
-    def __init__(self, rec):
+    def __init__(self, rec, obj=None):
         logging.Handler.__init__(self)
         self.rec = rec
+        self.obj = obj
 
     def emit(self, record):
         try:
@@ -278,6 +282,16 @@ class LogCapture(logging.Handler):
         m = re.match(r"enabled code version is not supported \(self version: (\d+), enabled version: (\d+)\)", msg)
         if m:
             self.rec.append(("blocked", int(m.group(2)), int(m.group(1))))
+            return
+        if msg.startswith("replicated method raised an exception"):
+            # D9 repair: exception of _idToMethod[funcID](...) caught in __doApplyCommand and returned as result;
+            # it is logged while the entry at lastApplied + 1 is being applied
+            exc = record.exc_info[1] if record.exc_info else None
+            idx = (self.obj._SyncObj__raftLastApplied + 1) if self.obj is not None else -1
+            if isinstance(exc, KeyError):
+                self.rec.append(("unknownId", idx, exc.args[0]))
+            else:
+                self.rec.append(("raised", idx, type(exc).__name__))
             return
         if "failed to load full dump" in msg:
             self.rec.append(("loadFailed",))
@@ -485,6 +499,10 @@ def canon_real_events(b, rec, arg2idx):
             _, cbid, res, err = r
             if res is None:
                 out.append(["cb", cbid, None, err == 0])
+            elif isinstance(res, KeyError):
+                out.append(["cb", cbid, ["keyError", res.args[0]], err == 0])
+            elif isinstance(res, BaseException):
+                out.append(["cb", cbid, ["raised", type(res).__name__], err == 0])
             else:
                 o, orig, v, x = res
                 out.append(["cb", cbid, [[v, o, name_json("%s_v%d" % (orig, v))], x], err == 0])
@@ -499,19 +517,14 @@ def apply_real(b, arg2idx):
     """Call the real __applyLogEntries once; returns the canonical event list."""
     del b.rec[:]
     o = b.obj
-    try:
-        o._SyncObj__applyLogEntries()
-    except KeyError as e:
-        # _idToMethod[funcID] for an id this code does not have; report the entry that raised
-        la = o._SyncObj__raftLastApplied
-        b.rec.append(("unknownId", la + 1, e.args[0]))
+    o._SyncObj__applyLogEntries()       # nothing may escape: an unknown id is logged and returned as result (D9)
     ev = canon_real_events(b, list(b.rec), arg2idx)
     del b.rec[:]
     return ev
 
 
 def install_log_capture(b):
-    h = LogCapture(b.rec)
+    h = LogCapture(b.rec, b.obj)
     lg = logging.getLogger("pysyncobj.syncobj")
     lg.addHandler(h)
     lg.propagate = False
